@@ -8,12 +8,14 @@ result types of a vertex and a fragment entry point.  Oracle: reachability closu
 import z3
 from harness.common import *
 from harness.structs_common import *
+from mirsym.schema import mkflags
 
 SRC = '''struct S0 { @location(0) a: f32 }
 struct S1 { @location(0) a: f32, @location(1) m: f32 }
 struct S2 { @location(0) a: f32, @location(1) m: f32 }
 struct S3 { @location(0) a: f32, @location(1) m: f32, @location(2) m2: f32 }
 struct Unused { @location(0) a: f32 }
+struct P { @location(3) p: f32 }
 alias A0 = array<S0, 2>;
 alias A1 = array<S1, 2>;
 alias A2 = array<S2, 2>;
@@ -23,10 +25,12 @@ alias AA0 = array<array<S0, 2>, 3>;
 var<private> g0: f32;
 var<workgroup> g1: f32;
 var<push_constant> g2: f32;
-@vertex fn e0(a: S0, @location(7) b: f32) -> @builtin(position) vec4<f32> { return vec4<f32>(0.0); }
-@fragment fn e1(a: S0) -> @location(0) vec4<f32> { return vec4<f32>(0.0); }
+@vertex fn e0(a: S0, @location(7) b: f32, c: P) -> @builtin(position) vec4<f32> { return vec4<f32>(0.0); }
+@fragment fn e1(a: S0, c: P) -> @location(0) vec4<f32> { return vec4<f32>(0.0); }
 '''
-STRUCTS = ['S0', 'S1', 'S2', 'S3', 'Unused']
+STRUCTS = ['S0', 'S1', 'S2', 'S3', 'Unused', 'P']
+SPACES = ['Private', 'WorkGroup', 'Uniform', 'Storage', 'PushConstant']
+ARG2_INDEX = {0: 2, 1: 1}          # position of the second struct parameter of e0 / e1
 
 
 def run(ctx):
@@ -43,9 +47,11 @@ def run(ctx):
     # static edges of the type graph (array -> base)
     edges = {i: [t['inner']['Array']['base']] for i, t in enumerate(mj['types']) if 'Array' in t['inner']}
     n_types = len(mj['types'])
-    ctx.bounds = {'struct types': STRUCTS, 'array types': [k for k in H if k not in STRUCTS] + ['array<S0,2> (inner of AA0)'],
-                  'symbolic': '3 variable types, 3 struct member types, 2 entry argument types, 2 entry result types (2-4 symbolic per run)'}
-    ctx.assumptions += ['struct definitions are acyclic (WGSL): the symbolic member of S_i names only S_j, j < i, or arrays of them',
+    ctx.bounds = {'address space of the 3 variables': f'symbolic over {SPACES} in every run', 'struct types': STRUCTS, 'array types': [k for k in H if k not in STRUCTS] + ['array<S0,2> (inner of AA0)'],
+                  'symbolic': '3 variable types, 3 struct member types, 2 x 2 entry argument types (two struct parameters per entry point), 2 entry result types (2-5 symbolic per run)'}
+    ctx.assumptions += ['if the code under test iterates a hash set (the pinned code only tests membership), two iteration orders are explored here (insertion, reverse); '
+                        'that the output does not depend on the order at all is C18\'s claim, decided there with every permutation',
+                        'struct definitions are acyclic (WGSL): the symbolic member of S_i names only S_j, j < i, or arrays of them',
                         'runtime-array members make the generator require encase (documented): the encase switch is on; refusals are not accepted shaders']
     holes = {}
 
@@ -60,15 +66,15 @@ def run(ctx):
     vdom = [H['S0'], H['Unused']]      # vertex inputs must be flat structs of located scalars for the real pipeline
     rdom = [H['S0'], H['S1'], H['S3'], hvec4]
     defaults = {'g0': hf32, 'g1': hf32, 'g2': hf32, 'S1.m': hf32, 'S2.m': hf32, 'S3.m': hf32, 'S3.m2': hf32, 'e0.arg': H['S0'], 'e1.arg': H['S0'],
-                'e0.res': hvec4, 'e1.res': hvec4}
+                'e0.arg2': H['P'], 'e1.arg2': H['P'], 'e0.res': hvec4, 'e1.res': hvec4}
     doms = {'g0': gdom, 'g1': gdom, 'g2': gdom, 'S1.m': member_dom[1], 'S2.m': member_dom[2], 'S3.m': member_dom[3], 'S3.m2': member_dom[3],
-            'e0.arg': vdom, 'e1.arg': adom, 'e0.res': rdom, 'e1.res': rdom}
+            'e0.arg': vdom, 'e1.arg': adom, 'e0.arg2': [H['P'], H['S0'], H['Unused']], 'e1.arg2': [H['P'], H['S0'], H['S1'], H['S3']], 'e0.res': rdom, 'e1.res': rdom}
     if ctx.tier == 'quick':
         # ('name', handle) pins a hole to a type for that run: a variable of type S3 whose two last members are symbolic, next to another variable
-        plans = [['g0', 'S2.m'], ['g1', 'S3.m', 'e0.res'], ['e0.arg', 'e1.arg', 'e1.res'], ['g2', 'S1.m', 'e1.arg'],
+        plans = [['g0', 'S2.m'], ['g1', 'S3.m', 'e0.res'], ['e0.arg', 'e1.arg', 'e1.res'], ['g2', 'S1.m', 'e1.arg'], ['e0.arg2', 'e1.arg', 'e1.arg2'],
                  [('g2', H['S3']), 'g0', 'S3.m', 'S3.m2']]          # an EARLIER variable may already have reached one of the member types
     else:
-        plans = [['g0', 'S2.m', 'S3.m'], ['g1', 'S3.m', 'e0.res', 'e1.arg'], ['e0.arg', 'e1.arg', 'e1.res', 'e0.res'], ['g2', 'S1.m', 'S2.m', 'e1.arg'],
+        plans = [['g0', 'S2.m', 'S3.m'], ['g1', 'S3.m', 'e0.res', 'e1.arg'], ['e0.arg', 'e1.arg', 'e1.res', 'e0.res'], ['e0.arg', 'e0.arg2', 'e1.arg', 'e1.arg2', 'g0'], ['g2', 'S1.m', 'S2.m', 'e1.arg'],
                  ['g0', 'g1', 'S1.m'], ['g0', 'S1.m', 'S2.m', 'S3.m'], [('g0', H['S3']), 'g2', 'S3.m', 'S3.m2'], [('g1', H['S3']), 'g0', 'S3.m', 'S3.m2', 'S2.m']]
     seen = {}
     opts = dict(derive_encase_host_shareable=True)
@@ -87,8 +93,24 @@ def run(ctx):
                 assume.append(z3.Or([t == v for v in doms[name]]))
             else:
                 assume.append(t == pins.get(name, defaults[name]))
+        AS = {v['name']: v['disc'] for v in S.schema['enums']['AddressSpace']}
+        spaces = {}
         for i in range(3):
             c.set(gvs[i], 'ty', terms[f'g{i}'])
+            # the address space of every variable is symbolic in every run (host visibility does not depend on it)
+            sp_ = z3.BitVec(f'g{i}_space', 64)
+            spaces[f'g{i}'] = sp_
+            c.set(gvs[i], 'space', c.sym_enum('AddressSpace', sp_, {'Storage': [mkflags('StorageAccess', z3.BitVec(f'g{i}_access', 32))]}))
+            assume.append(z3.Or([sp_ == AS[k] for k in SPACES]))
+        # WGSL: a type containing a runtime-sized array lives in the storage address space
+        rt1 = terms['S1.m'] == H['R0']
+        rt2 = z3.Or(terms['S2.m'] == H['R1'], z3.And(z3.Or(terms['S2.m'] == H['S1'], terms['S2.m'] == H['A1']), rt1))
+        rt3 = z3.Or([z3.Or(z3.And(terms[k_] == H['S1'], rt1), z3.And(z3.Or(terms[k_] == H['S2'], terms[k_] == H['A2']), rt2)) for k_ in ('S3.m', 'S3.m2')])
+        for i in range(3):
+            g_ = terms[f'g{i}']
+            has_rt_ = z3.Or(g_ == H['R0'], g_ == H['R1'], z3.And(g_ == H['S1'], rt1), z3.And(z3.Or(g_ == H['S2'], g_ == H['A2']), rt2), z3.And(g_ == H['S3'], rt3))
+            assume.append(z3.Implies(has_rt_, spaces[f'g{i}'] == AS['Storage']))
+        space_of = lambda m_: {k: next(n_ for n_ in SPACES if AS[n_] == model_value(m_, v)) for k, v in spaces.items()}
         for i in (1, 2, 3):
             ms = c.get(types[H[f'S{i}']], 'inner').fields[0].items
             c.set(ms[1], 'ty', terms[f'S{i}.m'])
@@ -98,11 +120,12 @@ def run(ctx):
             fn = c.get(eps[i], 'function')
             args = c.get(fn, 'arguments').items
             c.set(args[0], 'ty', terms[f'e{i}.arg'])
+            c.set(args[ARG2_INDEX[i]], 'ty', terms[f'e{i}.arg2'])
             res = c.get(fn, 'result').fields[0]
             c.set(res, 'ty', terms[f'e{i}.res'])
         res = ctx.explore(f'structs/usage-graph-{"+".join(plan)}{"/pinned" if pins else ""}',
                           lambda it: it.call('structs', [mkref(module), write_options(S.conv, **opts)]),
-                          assume=assume, anchors=['structs', 'add_types_recursive', 'rust_struct'], timeout_s=3000)
+                          assume=assume, env={'hash_orders': 'two'}, anchors=['structs', 'add_types_recursive', 'rust_struct'], timeout_s=3000)
         want = reference(terms, H, edges, n_types)
         n_pan = 0
         for pc, kind, out, _ in res:
@@ -111,7 +134,7 @@ def run(ctx):
                 if not out.startswith(('Only the last field', 'Runtime-sized array', 'called `Option::unwrap()`')):
                     m = ctx.witness(pc)
                     vals = {k: model_value(m, v) for k, v in terms.items() if k in plan}
-                    src2 = render(vals, H, hf32, hvec4, mj)
+                    src2 = render(vals, H, hf32, hvec4, mj, space_of(m))
                     k2, r2, _ = ctx.gen_tokens(src2, opts) if src2 else ('?', None, None)
                     ctx.report('C08/panic', f'structs panics ({out}) for {vals}', {'wgsl': src2}, k2 == 'panic')
                 continue
@@ -133,7 +156,7 @@ def run(ctx):
             if seen[key] > 1:
                 continue
             vals = {k: model_value(m, v) for k, v in terms.items()}
-            rep, det = replay(ctx, vals, H, hf32, hvec4, mj, opts, {k: z3.is_true(m.eval(v, model_completion=True)) for k, v in want.items()})
+            rep, det = replay(ctx, vals, H, hf32, hvec4, mj, opts, {k: z3.is_true(m.eval(v, model_completion=True)) for k, v in want.items()}, space_of(m))
             inv = {v: k for k, v in H.items()}
             ctx.report(key, f'{failed[0]} for usage { {k: inv.get(v, v) for k, v in vals.items() if k in plan} }', det, rep, det)
         oks = [r for r in res if r[1] == 'ok']
@@ -143,7 +166,7 @@ def run(ctx):
         for r in oks[:: max(1, len(oks) // (3 if ctx.tier == 'quick' else 20))]:
             m = ctx.witness(r[0])
             vals = {k: model_value(m, v) for k, v in terms.items()}
-            src2 = render(vals, H, hf32, hvec4, mj)
+            src2 = render(vals, H, hf32, hvec4, mj, space_of(m))
             if src2 is None:
                 continue
             k2, toks2, _ = ctx.gen_tokens(src2, opts)
@@ -179,7 +202,7 @@ def reference(terms, H, edges, n_types):
     want = {}
     for s in STRUCTS:
         h = H[s]
-        is_arg = z3.Or(terms['e0.arg'] == h, terms['e1.arg'] == h)
+        is_arg = z3.Or(terms['e0.arg'] == h, terms['e1.arg'] == h, terms['e0.arg2'] == h, terms['e1.arg2'] == h)
         is_res = z3.Or(terms['e0.res'] == h, terms['e1.res'] == h)
         want[s] = z3.simplify(z3.Or(reach[h], z3.And(is_arg, z3.Not(is_res))))
     return want
@@ -194,7 +217,7 @@ def spell(h, H, hf32, hvec4, mj):
     return inv.get(h)
 
 
-def render(vals, H, hf32, hvec4, mj):
+def render(vals, H, hf32, hvec4, mj, spaces_chosen=None):
     sp = lambda k: spell(vals[k], H, hf32, hvec4, mj)
     if any(sp(k) is None for k in vals):
         return None
@@ -202,11 +225,19 @@ def render(vals, H, hf32, hvec4, mj):
     body = lambda k: 'return vec4<f32>(0.0);' if vals[k] == hvec4 else f'var o: {sp(k)}; return o;'
     spaces = ['private', 'workgroup', 'push_constant']
     gl = []
+    rt_types = {H['R0'], H['R1']}
+    memb = {H['S1']: [vals['S1.m']], H['S2']: [vals['S2.m']], H['S3']: [vals['S3.m'], vals['S3.m2']]}
+
+    def has_rt(h, depth=0):
+        return h in rt_types or (depth < 8 and any(has_rt(x, depth + 1) for x in memb.get(h, [])))
     for i in range(3):
         t = sp(f'g{i}')
-        space = spaces[i]
-        if t in ('R0', 'R1') or vals[f'g{i}'] in [H[s] for s in ('S1', 'S2', 'S3')]:
-            gl.append(f'@group(0) @binding({i}) var<storage, read> g{i}: {t};')     # may contain a runtime array
+        space = {'Private': 'private', 'WorkGroup': 'workgroup', 'PushConstant': 'push_constant', 'Uniform': 'uniform', 'Storage': 'storage'}[spaces_chosen[f'g{i}']] \
+            if spaces_chosen else spaces[i]
+        if has_rt(vals[f'g{i}']) or (spaces_chosen is None and vals[f'g{i}'] in [H[s] for s in ('S1', 'S2', 'S3')]) or space == 'storage':
+            gl.append(f'@group(0) @binding({i}) var<storage, read> g{i}: {t};')     # a runtime array needs the storage address space
+        elif space == 'uniform':
+            gl.append(f'@group(0) @binding({i}) var<uniform> g{i}: {t};')
         else:
             gl.append(f'var<{space}> g{i}: {t};')
     return f'''struct S0 {{ @location(0) a: f32 }}
@@ -214,6 +245,7 @@ struct S1 {{ @location(0) a: f32, @location(1) m: {sp("S1.m")} }}
 struct S2 {{ @location(0) a: f32, @location(1) m: {sp("S2.m")} }}
 struct S3 {{ @location(0) a: f32, @location(1) m: {sp("S3.m")}, @location(2) m2: {sp("S3.m2")} }}
 struct Unused {{ @location(0) a: f32 }}
+struct P {{ @location(3) p: f32 }}
 alias A0 = array<S0, 2>;
 alias A1 = array<S1, 2>;
 alias A2 = array<S2, 2>;
@@ -221,13 +253,13 @@ alias R0 = array<S0>;
 alias R1 = array<S1>;
 alias AA0 = array<array<S0, 2>, 3>;
 {chr(10).join(gl)}
-@vertex fn e0(a: {sp("e0.arg")}, @location(7) b: f32) {res("e0.res")} {{ {body("e0.res")} }}
-@fragment fn e1(a: {sp("e1.arg")}) {res("e1.res")} {{ {body("e1.res")} }}
+@vertex fn e0(a: {sp("e0.arg")}, @location(7) b: f32, c: {sp("e0.arg2")}) {res("e0.res")} {{ {body("e0.res")} }}
+@fragment fn e1(a: {sp("e1.arg")}, c: {sp("e1.arg2")}) {res("e1.res")} {{ {body("e1.res")} }}
 '''
 
 
-def replay(ctx, vals, H, hf32, hvec4, mj, opts, want):
-    src = render(vals, H, hf32, hvec4, mj)
+def replay(ctx, vals, H, hf32, hvec4, mj, opts, want, spaces_chosen=None):
+    src = render(vals, H, hf32, hvec4, mj, spaces_chosen)
     if src is None:
         return False, {'note': 'no WGSL spelling'}
     kind, toks, _ = ctx.gen_tokens(src, opts)
@@ -259,6 +291,7 @@ def native(ctx):
         vals = {'g0': ctx.rng.choice(gdom), 'g1': ctx.rng.choice(gdom), 'g2': ctx.rng.choice([hf32, H['S0'], H['A0']]),
                 'S1.m': ctx.rng.choice(member_dom[1]), 'S2.m': ctx.rng.choice(member_dom[2]), 'S3.m': ctx.rng.choice(member_dom[3]), 'S3.m2': ctx.rng.choice(member_dom[3]),
                 'e0.arg': ctx.rng.choice([H['S0'], H['Unused']]), 'e1.arg': ctx.rng.choice([H['S0'], H['S1'], H['S3'], hvec4]),
+                'e0.arg2': ctx.rng.choice([H['P'], H['S0'], H['Unused']]), 'e1.arg2': ctx.rng.choice([H['P'], H['S0'], H['S1'], H['S3']]),
                 'e0.res': ctx.rng.choice([hvec4, H['S0']]), 'e1.res': ctx.rng.choice([hvec4, H['S0'], H['S1']])}
         # concrete reachability
         reach = {vals['g0'], vals['g1'], vals['g2']}
@@ -271,7 +304,7 @@ def native(ctx):
                     if nx not in reach:
                         reach.add(nx)
                         changed = True
-        args = {vals['e0.arg'], vals['e1.arg']}
+        args = {vals['e0.arg'], vals['e1.arg'], vals['e0.arg2'], vals['e1.arg2']}
         ress = {vals['e0.res'], vals['e1.res']}
         want = {s_: (H[s_] in reach) or (H[s_] in args and H[s_] not in ress) for s_ in STRUCTS}
         rep, det = replay(ctx, vals, H, hf32, hvec4, mj, opts, want)
